@@ -38,43 +38,46 @@ Cur(c) == X(E.cur[c])
 Nxt(c) == X(E.nxt[c])
 Lag(i) == X(E.lag[i])
 
-PeriodicAt(k) == LET vals == E.periodic[k]  cyc == Len(vals)  gc == PowM(E.g, E.n \div cyc)
-                 IN  LagrangeAt([j \in 1..cyc |-> Emb(PowM(gc, j - 1))], [j \in 1..cyc |-> Emb(vals[j])], PowX(Z, E.n \div cyc))
-Constraint(i) ==
-    IF E.mode = "copy" THEN SubX(Nxt(i), Cur(i))
-    ELSE IF \E k \in DOMAIN E.neg : E.neg[k] = i - 1 THEN SubX(Nxt(i), SubX(Emb(i), Cur(i)))
-    ELSE LET p == IF E.pcol[i] >= 0 THEN PeriodicAt(E.pcol[i] + 1) ELSE OneX
-         IN  SubX(Nxt(i), AddX(AddX(MulX(PowX(Cur(i), E.degs[i]), p), Cur((i % W) + 1)), Emb(i)))
+\* the composition at a point pt on the frame (cur, nxt) and the Lagrange column values lagv, as in Trace_Verifier.tla
+PeriodicAtP(k, pt) == LET vals == E.periodic[k]  cyc == Len(vals)  gc == PowM(E.g, E.n \div cyc)
+                      IN  LagrangeAt([j \in 1..cyc |-> Emb(PowM(gc, j - 1))], [j \in 1..cyc |-> Emb(vals[j])], PowX(pt, E.n \div cyc))
+ConstraintP(i, pt, cur, nxt) ==
+    IF E.mode = "copy" THEN SubX(nxt[i], cur[i])
+    ELSE IF \E k \in DOMAIN E.neg : E.neg[k] = i - 1 THEN SubX(nxt[i], SubX(Emb(i), cur[i]))
+    ELSE LET p == IF E.pcol[i] >= 0 THEN PeriodicAtP(E.pcol[i] + 1, pt) ELSE OneX
+         IN  SubX(nxt[i], AddX(AddX(MulX(PowX(cur[i], E.degs[i]), p), cur[(i % W) + 1]), Emb(i)))
 RandOf(j) == IF Len(E.rands) = 0 THEN OneX ELSE X(E.rands[((j - 1) % Len(E.rands)) + 1])
-AuxConstraint(j) ==
-    LET m == Cur(((j - 1) % W) + 1)  r == RandOf(j)  cur == Cur(W + j)  nxt == Nxt(W + j)
-    IN  IF E.aux_degs[j] = 1 THEN SubX(nxt, AddX(cur, MulX(r, m))) ELSE SubX(nxt, MulX(cur, PowX(AddX(m, r), E.aux_degs[j] - 1)))
-ZT == DivX(SubX(PowX(Z, E.n), OneX), ProdX((E.n - E.exempt)..(E.n - 1), LAMBDA s : SubX(Z, Emb(PowM(E.g, s)))))
+AuxConstraintP(j, cur, nxt) ==
+    LET m == cur[((j - 1) % W) + 1]  r == RandOf(j)  c == cur[W + j]  n == nxt[W + j]
+    IN  IF E.aux_degs[j] = 1 THEN SubX(n, AddX(c, MulX(r, m))) ELSE SubX(n, MulX(c, PowX(AddX(m, r), E.aux_degs[j] - 1)))
+ZTAt(pt) == DivX(SubX(PowX(pt, E.n), OneX), ProdX((E.n - E.exempt)..(E.n - 1), LAMBDA s : SubX(pt, Emb(PowM(E.g, s)))))
 
 StepsOfA(a) == [j \in 1..a.steps |-> a.first + a.stride * (j - 1)]
 Key(a) == <<a.stride, a.first, a.col>>
 LessKey(p, q) == \/ p[1] < q[1] \/ (p[1] = q[1] /\ p[2] < q[2]) \/ (p[1] = q[1] /\ p[2] = q[2] /\ p[3] < q[3])
 RankIn(as, k) == Cardinality({m \in DOMAIN as : LessKey(Key(as[m]), Key(as[k]))}) + 1
 \* val(v): the asserted value as an element (main assertions carry base-field integers, auxiliary ones coefficient lists)
-BoundaryTerm(a, off, cc, val(_)) ==
+BoundaryTermP(a, off, cc, val(_), pt, cur) ==
     LET st == StepsOfA(a)
         xs == [j \in DOMAIN st |-> Emb(PowM(E.g, st[j]))]
         ys == [j \in DOMAIN st |-> IF Len(a.values) = 1 THEN val(a.values[1]) ELSE val(a.values[j])]
-        Va == LagrangeAt(xs, ys, Z)
-        Za == ProdX(DOMAIN xs, LAMBDA j : SubX(Z, xs[j]))
-    IN  MulX(cc, DivX(SubX(Cur(off + a.col + 1), Va), Za))
+        Va == LagrangeAt(xs, ys, pt)
+        Za == ProdX(DOMAIN xs, LAMBDA j : SubX(pt, xs[j]))
+    IN  MulX(cc, DivX(SubX(cur[off + a.col + 1], Va), Za))
 NMainA == Len(E.asserts)
-LagrangeTerms ==
+LagrangeTermsP(pt, lagv) ==
     LET r == XS(E.lrands)
     IN  AddX(SumX(1..V, LAMBDA k : MulX(X(E.lct[k]),
-                     DivX(SubX(MulX(r[V - k + 1], Lag(1)), MulX(SubX(OneX, r[V - k + 1]), Lag((V - k) + 2))),
-                          SubX(PowX(Z, 2 ^ (k - 1)), OneX)))),
-             MulX(X(E.lcb), DivX(SubX(Lag(1), ProdX(1..V, LAMBDA i : SubX(OneX, r[i]))), SubX(Z, OneX))))
-HDef == AddX(AddX(DivX(AddX(SumX(1..W, LAMBDA i : MulX(X(E.cct[i]), Constraint(i))),
-                            SumX(1..NAux, LAMBDA j : MulX(X(E.cct[W + j]), AuxConstraint(j)))), ZT),
-                  AddX(SumX(DOMAIN E.asserts, LAMBDA k : BoundaryTerm(E.asserts[k], 0, X(E.ccb[RankIn(E.asserts, k)]), Emb)),
-                       SumX(DOMAIN E.aux_asserts, LAMBDA k : BoundaryTerm(E.aux_asserts[k], W, X(E.ccb[NMainA + RankIn(E.aux_asserts, k)]), X)))),
-             IF E.lagrange THEN LagrangeTerms ELSE ZeroX)
+                     DivX(SubX(MulX(r[V - k + 1], lagv[1]), MulX(SubX(OneX, r[V - k + 1]), lagv[(V - k) + 2])),
+                          SubX(PowX(pt, 2 ^ (k - 1)), OneX)))),
+             MulX(X(E.lcb), DivX(SubX(lagv[1], ProdX(1..V, LAMBDA i : SubX(OneX, r[i]))), SubX(pt, OneX))))
+HDefAt(pt, cur, nxt, lagv) ==
+        AddX(AddX(DivX(AddX(SumX(1..W, LAMBDA i : MulX(X(E.cct[i]), ConstraintP(i, pt, cur, nxt))),
+                            SumX(1..NAux, LAMBDA j : MulX(X(E.cct[W + j]), AuxConstraintP(j, cur, nxt)))), ZTAt(pt)),
+                  AddX(SumX(DOMAIN E.asserts, LAMBDA k : BoundaryTermP(E.asserts[k], 0, X(E.ccb[RankIn(E.asserts, k)]), Emb, pt, cur)),
+                       SumX(DOMAIN E.aux_asserts, LAMBDA k : BoundaryTermP(E.aux_asserts[k], W, X(E.ccb[NMainA + RankIn(E.aux_asserts, k)]), X, pt, cur)))),
+             IF E.lagrange THEN LagrangeTermsP(pt, lagv) ELSE ZeroX)
+HDef == HDefAt(Z, [c \in 1..NCols |-> Cur(c)], [c \in 1..NCols |-> Nxt(c)], [i \in 1..(IF E.lagrange THEN V + 1 ELSE 0) |-> Lag(i)])
 HSent == SumX(DOMAIN E.hz, LAMBDA j : MulX(PowX(Z, (j - 1) * E.n), X(E.hz[j])))
 ShapeOK == /\ E.deg = Deg /\ Len(E.hz) = E.ccols /\ Len(E.cur) = NCols /\ Len(E.nxt) = NCols
            /\ Len(E.alphas) = E.layers /\ Len(E.fri) = E.layers /\ (E.lagrange => Len(E.lag) = V + 1)
@@ -124,7 +127,7 @@ FriEnd == LET st0 == [pos |-> E.positions, vals |-> [k \in DOMAIN E.positions |-
                    THEN (IF E.layers = 0 THEN "deep" ELSE "remainder")
               ELSE "accept"
 
-\* ---- PROVER: the proof is the proof of the trace the prover was given (as in Trace_Verifier.tla; stages prover-ood, prover-lde) ----
+\* ---- PROVER: the proof is the proof of the trace the prover was given (as in Trace_Verifier.tla; stages prover-ood, prover-lde, prover-comp) ----
 \* main columns are base-field columns interpolated with native integers, auxiliary columns (extension elements) follow from the
 \* main columns and the recorded random elements and are interpolated coefficient by coefficient
 HasTrace == "tcols" \in DOMAIN E /\ Len(E.tcols) = W
@@ -151,7 +154,13 @@ ProverStage ==
         OodP == /\ \A c \in 1..NCols : Cur(c) = AtX(c, Z) /\ Nxt(c) = AtX(c, GZ)
                 /\ E.lagrange => \A i \in 1..(V + 1) : Lag(i) = AtX(NCols + 1, LagPts[i])
         LdeP == \A k \in DOMAIN E.positions : \A c \in 1..(W + Len(xcols)) : RowAt(k, c) = AtX(c, Xq(k))
-    IN  IF ~OodP THEN "prover-ood" ELSE IF ~LdeP THEN "prover-lde" ELSE "ok"
+        FrameAt(x) == [c \in 1..NCols |-> AtX(c, x)]
+        LagAtP(x) == IF E.lagrange THEN [i \in 1..(V + 1) |-> AtX(NCols + 1, IF i = 1 THEN x ELSE ScaleX(x, PowM(E.g, 2 ^ (i - 2))))] ELSE <<>>
+        CompP == \A k \in DOMAIN E.positions :
+                    LET x == Xq(k)
+                    IN  SumX(DOMAIN E.comp_rows[k], LAMBDA j : MulX(PowX(x, (j - 1) * n), X(E.comp_rows[k][j])))
+                          = HDefAt(x, FrameAt(x), FrameAt(ScaleX(x, E.g)), LagAtP(x))
+    IN  IF ~OodP THEN "prover-ood" ELSE IF ~LdeP THEN "prover-lde" ELSE IF ~CompP THEN "prover-comp" ELSE "ok"
 
 \* with a proper extension element as out-of-domain point no division by zero can occur; a point in the base field (possible,
 \* probability 1/p per coefficient) may hit the domains: not judged
